@@ -654,8 +654,17 @@ def hygiene_sites(f):
     for dn in f.decorator_names():
         if dn.split('.')[-1] in GRAD_MODES:
             out.append(('mode:' + dn.split('.')[-1], f.node))
-    # a buffer registered from `x.detach().clone()` is a constant copy by construction: not a cut on a differentiable path
+    # a buffer registered from `x.detach().clone()` is a constant copy by construction: not a cut on a differentiable path; neither is a detached COPY bound to a
+    # name that the function never reads again (kept for a log line / inspection)
     buffer_copies = set()
+    for n in _own_nodes(f.node):
+        if isinstance(n, ast.Assign) and len(n.targets) == 1 and isinstance(n.targets[0], ast.Name):
+            v = n.value
+            if isinstance(v, ast.Call) and isinstance(v.func, ast.Attribute) and v.func.attr == 'clone' and isinstance(v.func.value, ast.Call) and \
+                    isinstance(v.func.value.func, ast.Attribute) and v.func.value.func.attr == 'detach':
+                nm = n.targets[0].id
+                if not any(isinstance(x, ast.Name) and x.id == nm and isinstance(x.ctx, ast.Load) for x in ast.walk(f.node)):
+                    buffer_copies.add(id(v.func.value))
     for n in _own_nodes(f.node):
         if isinstance(n, ast.Call) and isinstance(n.func, ast.Attribute) and n.func.attr == 'register_buffer':
             for x in ast.walk(n):
@@ -668,7 +677,8 @@ def hygiene_sites(f):
             nm = (d or (n.func.attr if isinstance(n.func, ast.Attribute) else '')).split('.')[-1]
             meth = isinstance(n.func, ast.Attribute) and not d.startswith(('torch.', 'math.', 'np.', 'warnings.', 'os.'))
             if meth and not n.args and not n.keywords and nm in GRAPH_CUTS:
-                if id(n) not in buffer_copies:
+                # the system clock is an integer buffer: it has no graph to cut
+                if id(n) not in buffer_copies and not (nm == 'detach' and dotted(n.func.value) in ('self.systime', 'self._t')):
                     out.append(('cut:' + nm, n))
             elif meth and nm in DEVICE_MOVES:
                 out.append(('dev:' + nm, n))
